@@ -800,3 +800,68 @@ Proof.
     intros p Hp. symmetry. apply Hh. apply sb_init_ok. exact Hp.
 Qed.
 Print Assumptions C05_final_optimize_find_partial.
+
+(* ---------------------------------------------------------------------------------------------- *)
+(* Examples for part 2.  Environment: text t, word characters = the ASCII \w characters, no sets.    *)
+(* ---------------------------------------------------------------------------------------------- *)
+Definition c05_word (x : Z) : bool := mem ecma_word_ranges x.
+Definition c05_cat_in (name x : Z) : bool := if name =? cat_word then c05_word x else false.
+Definition c05_env (t : list Z) : env :=
+  {| txt := t; tstart := 0; ecma := false; endz_strict := false; set_in := fun _ _ => false;
+     lower := fun x => x; is_word := c05_word; is_eword := c05_word |}.
+
+Lemma c05_env_ok t : env_ok c05_cat_in c05_word c05_word (fun _ => 0) (c05_env t) [].
+Proof.
+  constructor; try reflexivity.
+  - intros c [].
+  - intros x H. discriminate.
+  - intros x H. exact H.
+  - intros ch [H|H]; [discriminate|]. split; [reflexivity|].
+    assert (Hw : mem ecma_word_ranges ch = false).
+    { unfold mem, in_range, ecma_space_ranges, ecma_word_ranges in *. cbn [existsb fst snd] in *. lia. }
+    split; [exact Hw | exact Hw].
+Qed.
+
+(* a*b : the loop becomes atomic and the marker is inserted; the theorem applies (mask 24: the three families of
+   finalOptimize on) and the search on "aab" finds the same match *)
+Definition c05_ex_astar_b : rnode :=
+  RN 28 0 0 0 (-1) [] None [RN 25 0 0 0 0 [] None [RN 3 0 97 0 INF [] None []; RN 9 0 98 0 0 [] None []]].
+Example C05_ex_final_optimize_applies :
+  let root' := RN 28 0 0 0 (-1) [] None
+                 [RN 25 0 0 0 0 [] None [RN 43 0 97 0 INF [] None []; RN T_Bump 0 0 0 0 [] None []; RN 9 0 98 0 0 [] None []]] in
+  fo_wf c05_ex_astar_b = true /\
+  fo_final_optimize c05_cat_in c05_word c05_word 20 24 0 false false c05_ex_astar_b = Ok root' /\
+  fo_final_optimize c05_cat_in c05_word c05_word 20 24 15 true false c05_ex_astar_b = Ok root' /\
+  find (c05_env [97; 97; 98]) 6 (tr (fun _ => 0) c05_ex_astar_b) false 0 (-1) = Ok (Some {| pos := 3; caps := [(0, [(0, 3)])] |}) /\
+  find (c05_env [97; 97; 98]) 6 (tr (fun _ => 0) root') false 0 (-1) = Ok (Some {| pos := 3; caps := [(0, [(0, 3)])] |}).
+Proof. vm_compute. repeat split; reflexivity. Qed.
+
+(* the side condition "no \B stepped over before the end of the expression" (strict bit 1) is necessary:
+   -+\B (known finding c05-nonboundary-end): the code makes the loop atomic, the strict model does not, and the
+   first result of the root from position 0 of "--a" changes (position 1 vs none) *)
+Definition c05_ex_nb : rnode :=
+  RN 28 0 0 0 (-1) [] None [RN 25 0 0 0 0 [] None [RN 3 0 45 1 INF [] None []; RN 17 0 0 0 0 [] None []]].
+Theorem C05_final_optimize_nb_refuted :
+  ~ (forall cat_in isw isew sid e sets, env_ok cat_in isw isew sid e sets ->
+     forall g, fo_gate g 8 = true -> fo_gate g 16 = true ->
+     forall fuel cl root root', fo_wf root = true -> sets_in sets root ->
+       fo_final_optimize cat_in isw isew fuel g 0 false cl root = Ok root' ->
+       forall s, st_ok e s -> hd_list (den e (tr sid root) s) = hd_list (den e (tr sid root') s)).
+Proof.
+  intros H.
+  set (root' := RN 28 0 0 0 (-1) [] None [RN 25 0 0 0 0 [] None [RN 43 0 45 1 INF [] None []; RN T_Bump 0 0 0 0 [] None []; RN 17 0 0 0 0 [] None []]]).
+  specialize (H c05_cat_in c05_word c05_word (fun _ => 0) (c05_env [45; 45; 97]) [] (c05_env_ok _) 24 eq_refl eq_refl
+                20%nat false c05_ex_nb root' eq_refl ltac:(cbn; tauto) ltac:(vm_compute; reflexivity)
+                {| pos := 0; caps := [] |} ltac:(apply sb_init_ok; cbn; lia)).
+  assert (H1 : den (c05_env [45; 45; 97]) (tr (fun _ => 0) c05_ex_nb) {| pos := 0; caps := [] |} = [{| pos := 1; caps := [(0, [(0, 1)])] |}]).
+  { apply fd_evals_den. exists 6%nat. vm_compute. reflexivity. }
+  assert (H2 : den (c05_env [45; 45; 97]) (tr (fun _ => 0) root') {| pos := 0; caps := [] |} = []).
+  { apply fd_evals_den. exists 6%nat. vm_compute. reflexivity. }
+  rewrite H1, H2 in H. discriminate.
+Qed.
+Print Assumptions C05_final_optimize_nb_refuted.
+
+Example C05_ex_nb_side_condition_fails :
+  fo_final_optimize c05_cat_in c05_word c05_word 20 24 0 false false c05_ex_nb <>
+  fo_final_optimize c05_cat_in c05_word c05_word 20 24 15 true false c05_ex_nb.
+Proof. vm_compute. discriminate. Qed.
